@@ -4,11 +4,11 @@
 // watchdog thread so that "blocks forever" is observed as a failure instead of hanging the check.
 #![allow(dead_code, unused_imports, unused_variables, unused_macros)]
 // tracing macros (shim: logging has no bearing on the property)
-macro_rules! trace { ($($t:tt)*) => {}; }
-macro_rules! debug { ($($t:tt)*) => {}; }
-macro_rules! info { ($($t:tt)*) => {}; }
-macro_rules! warn { ($($t:tt)*) => {}; }
-macro_rules! error { ($($t:tt)*) => {}; }
+macro_rules! trace { ($($t:tt)*) => { () }; }
+macro_rules! debug { ($($t:tt)*) => { () }; }
+macro_rules! info { ($($t:tt)*) => { () }; }
+macro_rules! warn { ($($t:tt)*) => { () }; }
+macro_rules! error { ($($t:tt)*) => { () }; }
 use std::{collections::BTreeMap, fmt, sync::{Arc, RwLock, mpsc}, time::Duration};
 // shim: iroh_base::RelayUrl — an ordered, cloneable identifier
 #[derive(Debug, Clone, PartialEq, Eq, PartialOrd, Ord, Hash)]
